@@ -42,6 +42,7 @@ WithinLFP ==
                         /\ (s.outD[c] => <<c, "outD">> \in LFP(cfg))
 InitialDataPublished ==
   ph = "ok" => \A c \in Comps(cfg) : cfg.comps[c].hasout => s.pubs[c] = InitialPubs(cfg.comps[c])
+NeverGuess == \A c \in Comps(cfg) : s.pubV[c] # "guess"
 NeverStall == ph # "stall"
 NeverOk == ph # "ok"
 =============================================================================
